@@ -20,7 +20,11 @@ type IContext struct {
 
 // Cancel 取消接口代理
 func (c *IContext) Cancel() {
-	*c.p.originIface = *c.p.originIfaceValue
+	// 每一轮 mock 只恢复一次: 已取消的 Mocker 仍留在 Builder 中, 再次 Reset 时不能用旧的备份覆盖之后赋给变量的值
+	if !c.p.restored {
+		*c.p.originIface = *c.p.originIfaceValue
+		c.p.restored = true
+	}
 	c.p.canceled = true
 }
 
@@ -66,6 +70,8 @@ type PContext struct {
 	retained []interface{}
 	// canceled 是否已经被取消
 	canceled bool
+	// restored 变量是否已经恢复为备份的值(之后没有再应用过 mock)
+	restored bool
 }
 
 // PFunc 代理函数类型的签名
@@ -99,6 +105,8 @@ func MakeInterface(ctx *IContext, funcTabIndex int, itabFunc uintptr, typ reflec
 
 // BackUpTo 备份缓存 iface 指针到 IContext 中
 func BackUpTo(ctx *IContext, iface unsafe.Pointer) {
+	// 即将(再次)把 mock 写入变量
+	ctx.p.restored = false
 	if ctx.p.originIfaceValue == nil {
 		ctx.p.originIface = (*hack.Iface)(iface)
 		originIfaceValue := *(*hack.Iface)(iface)
